@@ -1,6 +1,8 @@
 import EdpVerif.Generated.MiscC04
 import EdpVerif.Generated.MiscState
 import EdpVerif.Lemmas.Handshake
+import EdpVerif.Lemmas.Epmd
+import EdpVerif.Lemmas.Connect
 /-!
 # C04 — handshake: connected only after cookie proof, in protocol order; failure is final; flags are the intersection; layouts
 
@@ -606,5 +608,218 @@ theorem C04_state_is_the_sources_state :
        "flags:DistributionFlags", "creation:Creation", "our_challenge:Option<u32>", "their_challenge:Option<u32>",
        "negotiated_flags:Option<DistributionFlags>"]
     ∧ Edp.Gen.PROCESS_WIDE_STATE = [] := by decide
+
+/-! ## on the way to `connected`: the EPMD client (epmd_client.rs) -/
+
+section Epmd
+open Edp.Impl.Epmd
+
+/-- The request this side writes for a lookup. On the connect path the name has passed `validate_node_name` (at most 255
+bytes): the request is exactly the protocol's PORT_PLEASE2_REQ. For the public call with any name: the length field is
+the name's length modulo 2^16 plus one, and the addition panics (dev profile) exactly when that is 65535 + 1. -/
+theorem C04_epmd_request_layout (name : Bytes) :
+    (name.length ≤ 255 → lookupReq name = .ok (Spec.Epmd.portPlease2Req name)) ∧
+    (lookupReq name = .panic ↔ name.length % 65536 = 65535) := by
+  constructor
+  · intro h
+    have h1 : name.length % 65536 = name.length := Nat.mod_eq_of_lt (by omega)
+    have h2 : ¬ name.length + 1 ≥ 65536 := by omega
+    simp [lookupReq, h1, h2, Spec.Epmd.portPlease2Req, tagPort2Req, Gen.EPMD_PORT2_REQ, Nat.add_comm]
+  · unfold lookupReq
+    split <;> simp <;> omega
+
+example : lookupReq [97, 98] = .ok [0, 3, 122, 97, 98] := by rfl
+
+/-- What the reply reader accepts is EXACTLY the protocol's PORT2_RESP with a known node type and protocol, a UTF-8 name
+of at most 255 bytes and at most 4096 bytes of extra (the regenerated limits), whatever follows it and whether EPMD then
+closes or not: a result `ok i` means the bytes start with the layout of `i`, and every such reply is read back as `i`. -/
+theorem C04_epmd_reply_is_the_protocols (data : Bytes) (closed : Bool) (i : NodeInfo) :
+    (lookupParse ⟨data, closed⟩).2 = .ok i ↔ (∃ rest, data = Spec.Epmd.port2Resp (toSpec i) ++ rest) ∧ accepted i := by
+  constructor
+  · exact lookupParse_sound ⟨data, closed⟩ i
+  · rintro ⟨⟨rest, hd⟩, ha⟩
+    rw [hd, lookupParse_complete i rest closed ha]
+
+example : (lookupParse ⟨[119, 0, 17, 18, 77, 0, 0, 6, 0, 5, 0, 1, 120, 0, 0], true⟩).2 = .ok ⟨4370, 77, 0, 6, 5, [120], []⟩ := by rfl
+
+/-- A truncated reply — any proper prefix of a reply that would be accepted — is never accepted, whether EPMD closes after
+it (end of stream) or stays silent (the timeout of the exchange): `lookup_node` returns an error. -/
+theorem C04_epmd_truncated_reply_is_error (i : NodeInfo) (n : Nat) (closed : Bool) (h : accepted i)
+    (hn : n < (Spec.Epmd.port2Resp (toSpec i)).length) :
+    ∃ e, (lookupParse ⟨(Spec.Epmd.port2Resp (toSpec i)).take n, closed⟩).2 = .error e := by
+  cases hr : (lookupParse ⟨(Spec.Epmd.port2Resp (toSpec i)).take n, closed⟩).2 with
+  | error e => exact ⟨e, rfl⟩
+  | ok j => exact absurd hr (lookupParse_truncated i n closed h hn j)
+
+example : (lookupParse ⟨[119, 0, 17, 18, 77, 0, 0, 6, 0, 5, 0, 1], false⟩).2 = .error .timeout := by rfl
+example : (lookupParse ⟨[119, 0, 17, 18, 77, 0, 0, 6, 0, 5, 0, 1], true⟩).2 = .error .eof := by rfl
+
+/-- No oversized allocation from a length field: whatever EPMD sends, `lookup_node` allocates at most two buffers, the
+first of at most 255 bytes (name), the second of at most 4096 bytes (extra) — a larger declared length is refused before
+the buffer is requested; and a reply is accepted only if it really carries the bytes it declares. -/
+theorem C04_epmd_allocation_bounded (s : Stream) :
+    ((lookupParse s).1 = [] ∨ (∃ n, (lookupParse s).1 = [n] ∧ n ≤ 255) ∨ (∃ n e, (lookupParse s).1 = [n, e] ∧ n ≤ 255 ∧ e ≤ 4096)) ∧
+    (∀ i, (lookupParse s).2 = .ok i → 14 + i.name.length + i.extra.length ≤ s.data.length) := by
+  refine ⟨?_, fun i h => lookupParse_no_ok_when_short s i h⟩
+  have := lookupParse_allocs s
+  simpa [maxName, maxExtra, Gen.EPMD_MAX_NAME, Gen.EPMD_MAX_EXTRA] using this
+
+example : (lookupParse ⟨[119, 0, 0, 1, 77, 0, 0, 6, 0, 5, 1, 0, 1, 2], false⟩).1 = [] := by decide
+example : (lookupParse ⟨[119, 0, 0, 1, 77, 0, 0, 6, 0, 5, 0, 2, 65, 66, 0, 1, 7], true⟩).1 = [2, 1] := by decide
+
+/-- Registration (ALIVE2_REQ): with a name and extra that fit the 16-bit length fields the request is the protocol's, and
+both reply forms of the protocol (ALIVE2_RESP with a 16-bit, ALIVE2_X_RESP with a 32-bit creation) are read back. -/
+theorem C04_epmd_register_is_the_protocols (port type hi lo cr : Nat) (name extra rest : Bytes) (closed : Bool) :
+    (13 + name.length + extra.length < 65536 →
+      registerReq port type hi lo name extra = Spec.Epmd.alive2Req port type 0 hi lo name extra) ∧
+    (cr < 65536 → registerParse ⟨Spec.Epmd.alive2Resp cr ++ rest, closed⟩ = .ok cr) ∧
+    (cr < 4294967296 → registerParse ⟨Spec.Epmd.alive2XResp cr ++ rest, closed⟩ = .ok cr) := by
+  refine ⟨fun h => ?_, registerParse_resp cr rest closed, registerParse_xresp cr rest closed⟩
+  have : 1 + 2 + 1 + 1 + 2 + 2 + 2 + name.length + 2 + extra.length = 13 + name.length + extra.length := by omega
+  simp [registerReq, Spec.Epmd.alive2Req, this, tagAlive2Req, Gen.EPMD_ALIVE2_REQ]
+
+example : registerParse ⟨[118, 0, 0, 0, 0, 9], true⟩ = .ok 9 := by rfl
+example : registerParse ⟨[121, 1, 0, 0], true⟩ = .error (.regErr 1) := by rfl
+
+/-- The EPMD constants, node types and limits the model reads are the ones in the source, and they are the protocol's. -/
+theorem C04_epmd_constants_are_the_protocols :
+    Gen.EPMD_CONSTS = [("ALIVE2_REQ", 120), ("ALIVE2_RESP", 121), ("ALIVE2_X_RESP", 118), ("PORT2_REQ", 122), ("PORT2_RESP", 119)] ∧
+    typeArms = Spec.Epmd.nodeTypes ∧ Gen.EPMD_NODE_TYPES.map (·.2) = Spec.Epmd.nodeTypes ∧
+    Gen.EPMD_TYPE_ARMS.map (fun p => (p.2, p.1)) = Gen.EPMD_NODE_TYPES ∧
+    protoArms = [Spec.Epmd.protoTcp] ∧ maxName = 255 ∧ maxExtra = 4096 ∧
+    Gen.EPMD_LOOKUP_READS = ["read_u8", "read_u8", "read_u16", "read_u8", "read_u8", "read_u16", "read_u16", "read_u16",
+      "read_exact", "read_u16", "read_exact"] := by decide
+
+end Epmd
+
+/-! ## `Connection::connect` as the sequence of awaited steps it is (connection.rs, transport.rs) -/
+
+section Connect
+open Edp.Impl.Connect
+
+/-- an environment in which everything goes right, for the examples -/
+def env0 : Env :=
+  { remote := [112, 64, 104], epmdUp := true, epmd := ⟨[119, 0, 17, 18, 77, 0, 0, 6, 0, 5, 0, 1, 112, 0, 0], true⟩, tcp := .ok,
+    status := .frame statusOk, chal := .frame chal0, ack := .frame (ack0 5), c := 5, w1 := .ok, w2 := .ok, w3 := .ok }
+
+/-- THE statement about the driver loop. `connect` on a fresh connection returns `Ok` exactly when: the remote name is
+`name@host` with 1..255 name bytes and EPMD answered the lookup with an acceptable PORT2_RESP; the TCP connect succeeded;
+the local name has at most 255 bytes; all three writes went out; and the peer sent — one complete frame per awaited read, in
+this order — an accepting status, a well-formed challenge, and the digest of the cookie and the challenge THIS side
+generated in THIS handshake. Anything else at any step — a close, silence, a refusal, a malformed, truncated or
+out-of-order message, a wrong digest, a failed or timed-out write — is an error. And then the machine is `connected`, the
+negotiated set is `peer AND ours`, and what was written is send_name, complement, reply (the digest of the cookie and the
+PEER's challenge) in the protocol's layouts and order. -/
+theorem C04_connect_ok_iff (cfg : Cfg) (dg : Bytes → Nat → Bytes) (env : Env) :
+    (connect cfg dg State.init env).2 = .ok () ↔
+      (∃ p, lookupRemote env = .ok p) ∧ env.tcp = .ok ∧ cfg.name.length ≤ 255 ∧
+      env.w1 = .ok ∧ env.w2 = .ok ∧ env.w3 = .ok ∧
+      (∃ sb st, env.status = .frame sb ∧ parseStatus sb = some st ∧ st.accepts = true) ∧
+      (∃ cb m, env.chal = .frame cb ∧ parseChallenge cb = some m ∧
+        (∃ ab, env.ack = .frame ab ∧ parseAck ab = some (dg cfg.cookie env.c)) ∧
+        (connect cfg dg State.init env).1 =
+          ⟨⟨.connected, some env.c, some m.challenge, some (m.flags &&& cfg.flags)⟩,
+           [Spec.Handshake.sendNameOld cfg.flags cfg.name, Spec.Handshake.complement cfg.flags cfg.creation,
+            Spec.Handshake.reply env.c (dg cfg.cookie m.challenge)]⟩) := by
+  have hlay : ∀ m : Spec.Handshake.ChallengeMsg,
+      [nameMsg cfg, complMsg cfg, encodeReply env.c (dg cfg.cookie m.challenge)] =
+      [Spec.Handshake.sendNameOld cfg.flags cfg.name, Spec.Handshake.complement cfg.flags cfg.creation,
+        Spec.Handshake.reply env.c (dg cfg.cookie m.challenge)] := by
+    intro m
+    simp [nameMsg, complMsg, encodeReply, Spec.Handshake.sendNameOld, Spec.Handshake.complement, Spec.Handshake.reply]
+    try omega
+  unfold connect
+  simp only [step, State.init, ne_eq, not_true_eq_false, ↓reduceIte]
+  cases hl : lookupRemote env with
+  | error e => cases hsp : splitOnce env.remote <;> simp
+  | ok p =>
+    obtain ⟨q, hq⟩ := lookup_split env p hl
+    simp only [hq]
+    cases htcp : env.tcp with
+    | refused => simp
+    | silent => simp
+    | ok =>
+      simp only [Except.ok.injEq, exists_eq', true_and]
+      rcases hr : runSteps cfg dg env.c Gen.CONNECT_STEPS [env.status, env.chal, env.ack] [env.w1, env.w2, env.w3]
+        ⟨sBegun, []⟩ with ⟨af, r⟩
+      have key := handshake_ok_iff cfg dg env.c env.status env.chal env.ack env.w1 env.w2 env.w3 af
+      have hr' : runSteps cfg dg env.c Gen.CONNECT_STEPS [env.status, env.chal, env.ack] [env.w1, env.w2, env.w3]
+          ⟨⟨.connecting, none, none, none⟩, []⟩ = (af, r) := hr
+      rw [hr']
+      rw [hr] at key
+      cases r with
+      | error e =>
+        simp only [reduceCtorEq, false_iff]
+        intro hh
+        obtain ⟨g1, g2, g3, g4, g5, cb, m, g6, g7, g8, _⟩ := hh
+        have := (handshake_ok_iff cfg dg env.c env.status env.chal env.ack env.w1 env.w2 env.w3
+          ⟨⟨.connected, some env.c, some m.challenge, some (m.flags &&& cfg.flags)⟩,
+            [nameMsg cfg, complMsg cfg, encodeReply env.c (dg cfg.cookie m.challenge)]⟩).mpr
+          ⟨g1, g2, g3, g4, g5, cb, m, g6, g7, g8, rfl⟩
+        rw [hr] at this
+        simp at this
+      | ok u =>
+        cases u
+        simp only [true_iff]
+        obtain ⟨h1, h2, h3, h4, h5, cb, m, h6, h7, h8, h9⟩ := key.mp rfl
+        exact ⟨h1, h2, h3, h4, h5, cb, m, h6, h7, h8, by rw [h9, hlay]⟩
+
+example : (connect cfg0 dg0 State.init env0).2 = .ok () := by rfl
+example : (connect cfg0 dg0 State.init { env0 with ack := .silent }).2 = .error .timeout := by rfl
+example : (connect cfg0 dg0 State.init { env0 with ack := .frame (ack0 9) }) =
+    (⟨⟨.failed, some 5, some 9, some (255 &&& 0xd07df7fbd)⟩, (connect cfg0 dg0 State.init env0).1.w⟩, .error (.hs .auth)) := by rfl
+
+/-- Never in the connected state on an error: whatever EPMD, the network and the peer do, and whatever the writes do, a
+`connect` on a fresh connection that returns an error leaves the machine in a state other than `Connected`. -/
+theorem C04_connect_error_never_connected (cfg : Cfg) (dg : Bytes → Nat → Bytes) (env : Env) (e : CErr)
+    (h : (connect cfg dg State.init env).2 = .error e) :
+    (connect cfg dg State.init env).1.st.state ≠ .connected := by
+  revert h
+  unfold connect
+  simp only [step, State.init, ne_eq, not_true_eq_false, ↓reduceIte]
+  split
+  · simp
+  · split
+    · simp
+    · split
+      · simp
+      · simp
+      · intro h
+        rcases hr : runSteps cfg dg env.c Gen.CONNECT_STEPS [env.status, env.chal, env.ack] [env.w1, env.w2, env.w3]
+          ⟨⟨.connecting, none, none, none⟩, []⟩ with ⟨af, r⟩
+        rw [hr] at h
+        simp only at h
+        subst h
+        exact runSteps_error_not_connected cfg dg env.c _ _ _ _ af e (by decide) (by simp) hr
+
+example : (connect cfg0 dg0 State.init { env0 with status := .frame statusNok }).1.st.state = .failed := by rfl
+
+/-- Reuse: `connect` on a connection whose machine is not `Disconnected` (a second `connect`, or one after a failed
+attempt — nothing in `connect` resets the machine) is refused with `InvalidStateTransition`, before anything is looked up,
+connected to or written, and changes nothing. -/
+theorem C04_connect_reuse_refused (cfg : Cfg) (dg : Bytes → Nat → Bytes) (s0 : State) (env : Env)
+    (h : s0.state ≠ .disconnected) :
+    connect cfg dg s0 env = (⟨s0, []⟩, .error (.hs .invalidTransition)) := by
+  simp [connect, step, h]
+
+example : (connect cfg0 dg0 (connect cfg0 dg0 State.init { env0 with chal := .close }).1.st env0).2
+    = .error (.hs .invalidTransition) := by rfl
+
+/-- The step order, the timeouts and the limits the model reads are the ones in the source (regenerated on every run),
+and they are what the protocol and the property ask for: begin, name split, EPMD lookup, TCP connect (under the configured
+timeout), then send_name → status → complement → challenge → reply → ack, each helper one state-machine call and one
+awaited transport operation; every awaited transport operation is wrapped in `tokio::time::timeout(self.timeout, ..)`, and
+so are the two EPMD exchanges; the acknowledgement is read by the last step only. -/
+theorem C04_connect_steps_are_the_sources :
+    Gen.CONNECT_PRELUDE = Impl.Connect.prelude ∧
+    Gen.CONNECT_STEPS = [("send_name", "prepare_send_name", "write_raw"), ("receive_status", "handle_status", "read"),
+      ("send_complement", "prepare_complement", "write_raw"), ("receive_challenge", "handle_challenge", "read"),
+      ("send_challenge_reply", "prepare_challenge_reply", "write_raw"), ("receive_challenge_ack", "handle_challenge_ack", "read")] ∧
+    (∀ x ∈ Gen.CONNECT_STEPS, x.2.2 ∈ Gen.TRANSPORT_UNDER_TIMEOUT) ∧
+    (∀ x ∈ Gen.CONNECT_STEPS, (opOf x.2.1 [] 0).isSome = true) ∧
+    "lookup_node" ∈ Gen.EPMD_UNDER_TIMEOUT ∧ "register_node" ∈ Gen.EPMD_UNDER_TIMEOUT ∧
+    maxRemoteName = 255 := by decide
+
+end Connect
 
 end Edp.Props.C04
